@@ -146,6 +146,8 @@ def c04():
 def c08():
     p = Prop("C08")
     for sh in SER_SHAPES:
+        if sh in ("bool", "null"):
+            continue  # every write of these shapes is a single byte: no short write exists
         p.add("h_ser::ser_%s_shortwrite" % sh, quick=sh in SER_QUICK, timeout=ser_shape_timeout(sh), mem_gb=ser_shape_mem(sh), 
               drives=["serialize"], bound="shape %s under every short-write schedule: each write call accepts a solver-chosen k, 1 <= k <= len" % sh)
     p.functions, p.outside, p.not_covered = SER_FUNCS, SER_OUTSIDE, SER_NOT_COVERED
@@ -154,7 +156,38 @@ def c08():
     return p
 
 
-REGISTRY = {"C03": c03, "C04": c04, "C08": c08, "C09": c09}
+VM_FUNCS = ["bytecode::interpreter::{eval_literal,eval_get_local,eval_set_local,eval_get_global,eval_set_global,eval_drop,eval_label,"
+            "eval_jump,eval_branch,eval_return,eval_array,eval_get_field,eval_set_field,eval_call_method,eval_opcode,evaluate_with}",
+            "interpreter::{dispatch_method,dispatch_array_method,dispatch_array_get_method,dispatch_array_set_method}",
+            "state::{OperandStack,Frame,FrameStack,GlobalFrame,InstructionPointer}::*", "heap::{Heap::allocate,Heap::dereference,"
+            "Heap::dereference_mut,HeapObject,ArrayInstance,ObjectInstance,Pointer}::*", "program::{ConstantPool::get,Labels::get,Code::next,Code::get}"]
+VM_BOUNDS = ["pre-state: operand stack = sentinel (+ the instruction's operands), one frame of two locals (two frames for return), "
+             "heap of 0-2 cells, one global, one label; every Pointer symbolic in kind and payload, references range over the cells "
+             "plus one dangling index; operand indices symbolic (right kind / wrong kind / out of range)",
+             "array sizes <= 2; names of one byte (get/set: three); --heap-size any value below 2^40 MB"]
+VM_OUTSIDE = ["stacks deeper than 4, more than 2 frames, more than 2 heap cells, longer names, arrays longer than 2",
+              "the fetch loop over programs longer than 3 instructions", "--heap-size >= 2^44 MB (set_size's own multiplication overflows)"]
+VM_NOT_COVERED = ["eval_call_function, object-method invocation and eval_object: their iterator chains (veccat!, collect, IndexMap builds) exhaust "
+                  "16-50 GB under CBMC (DESIGN 2); see the MIR/z3 tasks for what is decided about them"]
+VM_ALL = ["literal", "get_local", "set_local", "get_global", "set_global", "drop_label", "jump", "branch", "return", "array",
+          "get_field", "set_field", "array_get", "array_set", "array_other", "aliasing", "loop_stops_at_failure", "loop_runs_to_end", "routing"]
+
+
+def vm_prop(pid, quick, extra_all=()):
+    p = Prop(pid)
+    for h in VM_ALL:
+        if h in quick or h in extra_all:
+            p.add("h_vm::vm_" + h, quick=h in quick, timeout=900, drives=["eval_" + h], bound="one step of the kernel from every state of the shape")
+    p.functions, p.bounds, p.outside, p.not_covered = VM_FUNCS, VM_BOUNDS, VM_OUTSIDE, VM_NOT_COVERED
+    return p
+
+
+def c05():
+    return vm_prop("C05", {"literal", "get_local", "set_local", "get_global", "set_global", "drop_label", "jump", "branch", "return",
+                           "routing", "loop_runs_to_end"}, VM_ALL)
+
+
+REGISTRY = {"C05": c05, "C03": c03, "C04": c04, "C08": c08, "C09": c09}
 
 
 def get(pid):
